@@ -601,7 +601,7 @@ def run_direct(name):
 
 class C02(Prop):
     id = "C02"
-    props_file = ["Props/C02.v", "Props/C02_Bridge.v"]
+    props_file = ["Props/C02.v", "Props/C02_Bridge.v", "Props/C02_Examples.v"]
     coq_imports = kc.COQ_IMPORTS
     n_quick = 700
     n_thorough = 16000
